@@ -158,6 +158,7 @@ def const_item_of(facts, body, operand, depth=0):
     return None
 
 
+CAST_KINDS = False        # optional: cast expressions carry the MIR cast kind as a 4th element (IntToFloat, FloatToInt, ...)
 CALL_TAGGER = None       # optional hook: (callee name, block, terminator) -> name used in expressions (to keep call sites apart)
 
 
@@ -259,6 +260,7 @@ def _expr_rv(facts, body, rv, depth, memo):
         if rv['op'] == 'PtrMetadata': return ('len', expr_of(facts, body, rv['a'], depth, memo))
         return ('un', rv['op'], expr_of(facts, body, rv['a'], depth, memo))
     if k == 'cast':
+        if CAST_KINDS: return ('cast', rv['to']['s'], expr_of(facts, body, rv['a'], depth, memo), rv.get('k', ''))
         return ('cast', rv['to']['s'], expr_of(facts, body, rv['a'], depth, memo))
     if k in ('ref', 'rawptr'): return expr_of_place(facts, body, rv['p'], depth, memo)
     if k == 'discr': return ('discr', expr_of_place(facts, body, rv['p'], depth, memo))
